@@ -17,6 +17,8 @@ def streams(rng, tier):
             if rng.random() < 0.03: c = gen.mutate(rng, c)
             out.append(Case("sem:" + op, "sp.sem", [s, c]))
             if rng.random() < 0.5: out.append(Case("contains", "sp.contains", [s, "T", c]))
+            # the call argument decides, whatever the object's own setting says (constructor keyword or assigned attribute)
+            if rng.random() < 0.15: out.append(Case("contains:override", "sp.contains", [s, "T", c, rng.choice("TF"), rng.choice("ca")]))
     return out
 
 def nontrivial(c, i):
